@@ -74,6 +74,7 @@ def check(run):
         more, stats = native_sweep(run, shapes, ("set", "list"), 4 if run.tier == "thorough" else 2)
         problems = problems + more
         run.bounded.append({"what": "native fault injection: valid definitions and every listed single fault at first/last position (+ random pairs) through ui.Model, python.compile, python.compile_ekf, cpp.compile, cpp.compile_ekf; generated files must not be written for refused definitions", "bound": f"{stats}", "failures": len(problems), "counted_as_proved": False})
+    check_symbol_keyed(run)
     seen = set()
     for p in problems:
         key = (p["kind"], p["entry_point"], (p["fault"] or "").split(" for ")[0].split(" of ")[0])
@@ -91,8 +92,40 @@ def check(run):
         run.findings.append(Finding(ob.name, rep.key.split(":")[-1], f"{ob.name} refuted" + (f"; native fault injection: {problems[0]['kind']} by {problems[0]['entry_point']}: {problems[0]['fault']}" if problems else ""), payload, confirmed, theory=ob.theory))
 
 
+def symbol_keyed_readings(seed, m):
+    """A VALID definition written in the library's own idiom - readings keyed by sympy Symbols, as in every example of the repository - with a
+    sensor of `m` readings, through python.compile_ekf and cpp.compile_ekf.  Returns {entry point: None | 'ExcType: message'}."""
+    import sympy
+
+    from replay import scenarios
+
+    sc = scenarios.Scenario(2, 0, 1, [m], seed=seed + 3)
+    d = faults.Definition(sc, "set")
+    d.sensor_models = {k: {sympy.Symbol(r): e for r, e in mp.items()} for k, mp in d.sensor_models.items()}
+    d.sensor_noises = {k: {sympy.Symbol(r): v for r, v in mp.items()} for k, mp in d.sensor_noises.items()}
+    return faults.run_entry_points(d, only={"python.compile_ekf", "cpp.compile_ekf"})
+
+
+def check_symbol_keyed(run):
+    fails = 0
+    for m in (1, 2):
+        res = symbol_keyed_readings(run.seed, m)
+        run.native_runs += 1
+        for ep in ("python.compile_ekf", "cpp.compile_ekf"):
+            if res.get(ep) is not None:
+                fails += 1
+                what = f"{ep} refuses a valid definition whose sensor has {m} reading(s) keyed by sympy Symbols (the idiom of every example in the repository): {res.get(ep)}"
+                run.findings.append(Finding("C14.native.valid_definition_with_symbol_keyed_readings", f"{ep}:{m}-reading sensor", what, {"language": "python", "inputs": {"symbol_keyed_readings": True, "readings": m, "seed": run.seed, "shape": [2, 0, 1, [m]]}, "oracle_verdict": what}, True))
+    run.bounded.append({"what": "valid definitions with readings keyed by sympy Symbols (1 and 2 readings per sensor) through python.compile_ekf and cpp.compile_ekf", "bound": "2 definitions x 2 entry points", "failures": fails, "counted_as_proved": False})
+
+
 def replay_file(payload):
     inp = payload["inputs"]
+    if inp.get("symbol_keyed_readings"):
+        res = symbol_keyed_readings(inp.get("seed", 0), inp.get("readings", 2))
+        bad = {k: v for k, v in res.items() if v is not None and k != "ui.Model"}
+        print("replay C14 (readings keyed by Symbols):", bad or "accepted by python.compile_ekf and cpp.compile_ekf")
+        return not bad
     shape = inp["shape"]
     problems, stats = faults.sweep(inp.get("seed", 0), [tuple(shape[:3]) + (shape[3],)], containers=(inp.get("container", "set"),), pairs=0)
     print("replay C14:", [f"{p['kind']} by {p['entry_point']}: {p['fault']}" for p in problems[:6]] or "every fault refused, valid definitions accepted")
